@@ -81,6 +81,7 @@ PANICKING = [
     (r"core::array::(from_fn)$", "skip"),
 ]
 PANICKING = [(re.compile(p), k) for p, k in PANICKING]
+GENERIC_INT_OP = re.compile(r"^core::ops::(arith|bit)::(Add|Sub|Mul|Div|Rem|Neg|Shl|Shr|AddAssign|SubAssign|MulAssign|DivAssign|RemAssign)::\w+$")
 INT_OP_BY_REF = re.compile(r"^<&?(?:'\w+ )?(?:mut )?([iu](?:8|16|32|64|128|size)) as core::ops::(arith|bit)::"
                            r"(Add|Sub|Mul|Div|Rem|Neg|Shl|Shr|AddAssign|SubAssign|MulAssign|DivAssign|RemAssign|ShlAssign|ShrAssign)\b")
 DIVERGING = re.compile(r"core::panicking::|core::option::(unwrap_failed|expect_failed)|core::result::unwrap_failed|"
@@ -120,6 +121,14 @@ def site_kinds(fn, wrappers):
                 # `a - b` with a reference operand is a call of core's forwarding impl, not a checked BinaryOp: same panics
                 yield ("call:int-arith-by-ref:%s:%s" % (m_.group(3), m_.group(1)), t[5])
                 continue
+            m_ = GENERIC_INT_OP.match(cal.get("path", ""))
+            if m_ and cal.get("r") in ("unresolved", "virtual", None) and t[2]:
+                # an operator of a type parameter: it is instantiated with whatever the callers choose, integers included
+                l_ = op_local(t[2][0])
+                ty_ = fn.local_ty(l_) if l_ is not None else ""
+                if ty_ and not ty_.startswith("&") and ("::" not in ty_ or ty_.startswith("<")):
+                    yield ("call:generic-arith:%s" % m_.group(2), t[5])
+                    continue
             if fn_key(cal.get("path", "")) in wrappers:
                 yield ("call:%s" % fn_key(cal.get("path", "")), t[5])
                 continue
